@@ -278,7 +278,11 @@ impl Profile {
 				};
 				let c = if *self == Profile::C11 && c.append_only { multitree_col(false, false, true) } else { c };
 				let mut cols = vec![c];
-				if *self == Profile::C11 || rng.chance(1, 3) {
+				if *self == Profile::C11 {
+					// the second column (written by the transactions that also dereference a tree)
+					// is a hash column or, every other variant, a btree column
+					cols.push(col((v / 4) % 2 == 1, false, false, false, CompressionType::NoCompression));
+				} else if rng.chance(1, 3) {
 					cols.push(col(false, false, false, false, CompressionType::NoCompression));
 				}
 				DbCfg::new(cols)
